@@ -22,7 +22,7 @@ import (
 // DecodeError says why a header is not well formed.
 type DecodeError struct {
 	Layer  string // eth | arp | ip4 | tcp | udp | icmp
-	Field  string // short | type | version | ihl | totlen | hdr-truncated | proto | fragment | doff | length | htype | ptype | sizes | body
+	Field  string // short | type | version | ihl | totlen | hdr-truncated | proto | fragment | doff | length | htype | htype-hi | ptype | sizes | body
 	Detail string // canonical, value carrying: "version=6", "hlen=2,plen=4"
 	Ord    int    // numeric order of the detail inside the field (smallest witness first)
 	Note   string // context that is not part of the witness's identity: "<hdr=24"
@@ -180,6 +180,10 @@ func (a ARP) EthIPv4() error {
 		return decBad("arp", "sizes", int(a.HLen)<<8|int(a.PLen), "hlen=%d,plen=%d", a.HLen, a.PLen)
 	}
 	if a.HType != 1 {
+		if a.HType&0xff == 1 {
+			// own class: a decoder that keeps only the low byte of the 16-bit field sees "Ethernet"
+			return decBad("arp", "htype-hi", int(a.HType), "htype=0x%04x", a.HType)
+		}
 		return decBad("arp", "htype", int(a.HType), "htype=%d", a.HType)
 	}
 	if a.PType != EtherIPv4 {
